@@ -1400,4 +1400,86 @@ example : c03l_fs.rootOpen ["r"] ["l8"] = .ok [.map [("x", .int 1)]] ∧
       (by decide),
     (C03_symlink_limit_open c03l_fs ["r"] c03l_names 9 _ c03l_chain9 c03l_end).2 (by decide)⟩
 
+/-! ## a `$parent` list: depth first, left to right, whatever the depth of each entry's own chain -/
+
+/-- the loop over the parents appends each entry's own resolved layers in the order of the entries -/
+theorem c03_loadSubs_flat (fs : FS) (cfg : RootCfg) (fuel : Nat) (fid : String) (docIds : List String)
+    (chain : List Comps) (sub : Comps → List LFile) :
+    ∀ (ps : List Comps) (acc : List LFile),
+      (∀ p ∈ ps, ∃ ids, loadFileAndParents fs cfg fuel p (some fid) docIds chain = .ok (sub p, ids)) →
+      loadSubs fs cfg fuel fid docIds chain ps acc = .ok (acc ++ ps.flatMap sub) := by
+  intro ps
+  induction ps with
+  | nil => intro acc _; simp [loadSubs]
+  | cons p ps ih =>
+    intro acc h
+    obtain ⟨ids, hp⟩ := h p (List.mem_cons_self ..)
+    rw [loadSubs, hp]
+    simp only []
+    rw [ih (acc ++ sub p) (fun q hq => h q (List.mem_cons_of_mem _ hq))]
+    simp [List.flatMap_cons, List.append_assoc]
+
+/-- A file whose `$parent` names the entries `parents` (a list, several documents, a wildcard - whatever `fileParents`
+    resolved) is loaded as: the resolved layers of the first entry, then those of the second, ..., then the file itself.
+    Each entry is preceded by ITS OWN bases and nothing else decides the order - in particular not how deep an entry's
+    own chain is (`sub p` may have any length). -/
+theorem C03_parent_list_depth_first (fs : FS) (cfg : RootCfg) (fuel : Nat) (path : Comps)
+    (childId : Option String) (c : List String) (chain : List Comps) (raw : List Val) (parents : List Comps)
+    (sub : Comps → List LFile)
+    (hch : chain.contains path = false)
+    (hload : loadFile fs cfg path (fileIdOf childId path) = .ok raw)
+    (hpar : fileParents fs cfg path raw = .ok parents)
+    (hsub : ∀ p ∈ parents, ∃ ids, loadFileAndParents fs cfg fuel p (some (fileIdOf childId path))
+        (docIdsOf (fileIdOf childId path) raw.length) (path :: chain) = .ok (sub p, ids)) :
+    loadFileAndParents fs cfg (fuel + 1) path childId c chain =
+      .ok (parents.flatMap sub ++ [mineOf (fileIdOf childId path) path raw parents (parents.flatMap sub)],
+        docIdsOf (fileIdOf childId path) raw.length) := by
+  rw [loadFileAndParents_succ]
+  simp only [hch, Bool.false_eq_true, if_false, hload, hpar]
+  rw [c03_loadSubs_flat fs cfg fuel _ _ _ sub parents [] hsub]
+  simp
+
+/-- two entries: `$parent: [p, q]` resolves to (layers of `p`) ++ (layers of `q`) ++ [the file], also when `q`'s chain is
+    longer than `p`'s -/
+theorem C03_parent_pair_order (fs : FS) (cfg : RootCfg) (fuel : Nat) (path p q : Comps)
+    (childId : Option String) (c : List String) (chain : List Comps) (raw : List Val)
+    (Fp Fq : List LFile) (ip iq : List String) (hpq : p ≠ q)
+    (hch : chain.contains path = false)
+    (hload : loadFile fs cfg path (fileIdOf childId path) = .ok raw)
+    (hpar : fileParents fs cfg path raw = .ok [p, q])
+    (hp : loadFileAndParents fs cfg fuel p (some (fileIdOf childId path))
+        (docIdsOf (fileIdOf childId path) raw.length) (path :: chain) = .ok (Fp, ip))
+    (hq : loadFileAndParents fs cfg fuel q (some (fileIdOf childId path))
+        (docIdsOf (fileIdOf childId path) raw.length) (path :: chain) = .ok (Fq, iq)) :
+    ∃ mine, mine.path = path ∧
+      loadFileAndParents fs cfg (fuel + 1) path childId c chain =
+        .ok (Fp ++ Fq ++ [mine], docIdsOf (fileIdOf childId path) raw.length) := by
+  have hsub : ∀ x ∈ [p, q], ∃ ids, loadFileAndParents fs cfg fuel x (some (fileIdOf childId path))
+      (docIdsOf (fileIdOf childId path) raw.length) (path :: chain) =
+        .ok ((fun x => if x = p then Fp else Fq) x, ids) := by
+    intro x hx
+    simp only [List.mem_cons, List.not_mem_nil, or_false] at hx
+    rcases hx with rfl | rfl
+    · exact ⟨ip, by simpa using hp⟩
+    · exact ⟨iq, by simp only [Ne.symm hpq, if_false]; exact hq⟩
+  have h := C03_parent_list_depth_first fs cfg fuel path childId c chain raw [p, q]
+    (fun x => if x = p then Fp else Fq) hch hload hpar hsub
+  refine ⟨mineOf (fileIdOf childId path) path raw [p, q] (Fp ++ Fq), rfl, ?_⟩
+  rw [h]
+  simp [List.flatMap_cons, Ne.symm hpq]
+
+
+/-- a concrete tree for the statement above: `top.yaml` with `$parent: [y, x.one]`, where the SECOND entry has the longer chain -/
+def c03_plFS : FS := ⟨[(["y.yaml"], .file (.ok [.map [("y", .int 1)]])), (["x.yaml"], .file (.ok [.map [("x", .int 1)]])),
+  (["x.one.yaml"], .file (.ok [.map [("one", .int 1)]])),
+  (["top.yaml"], .file (.ok [.map [("$parent", .list [.str "y", .str "x.one"]), ("t", .int 1)]]))]⟩
+
+/- a TEST, evaluated by the compiler (not a kernel proof; `decide` does not reduce the string functions): on this tree the
+   hypotheses of `C03_parent_pair_order` hold with `Fp = [y]`, `Fq = [x, x.one]`, and the resolved order is y, x, x.one, top -/
+#guard (loadFileAndParents c03_plFS ⟨[], []⟩ loadFuel ["top.yaml"] none [] []).toOption.map (fun r => r.1.map (·.path))
+    == some [["y.yaml"], ["x.yaml"], ["x.one.yaml"], ["top.yaml"]]
+#guard (fileParents c03_plFS ⟨[], []⟩ ["top.yaml"] [.map [("$parent", .list [.str "y", .str "x.one"]), ("t", .int 1)]]).toOption
+    == some [["y.yaml"], ["x.one.yaml"]]
+
+
 end Bkl
